@@ -273,7 +273,10 @@ func TestVerifC16Split(t *testing.T) {
 				if err != nil {
 					o.Err = "NewSplitCarReader: " + err.Error()
 				} else {
-					got, _ := io.ReadAll(io.NewSectionReader(scr, 0, 1<<40))
+					got, stuck := c16readAll(scr, int64(len(orig))*2+1024)
+					if stuck != "" {
+						o.Err = "read-back: " + stuck
+					}
 					o.HeaderOK = len(got) >= int(built.HeaderSize) && bytes.Equal(got[:built.HeaderSize], orig[:built.HeaderSize])
 					if o.HeaderOK {
 						o.Readback, _ = c16walk(got[built.HeaderSize:], ids)
@@ -284,8 +287,46 @@ func TestVerifC16Split(t *testing.T) {
 					scr.Close()
 				}
 			}
+			if o.Readback == nil {
+				o.Readback = []int{}
+			}
+			if o.Pieces == nil {
+				o.Pieces = []c16Piece{}
+			}
+			for i := range o.Pieces {
+				if o.Pieces[i].Secs == nil {
+					o.Pieces[i].Secs = []int{}
+				}
+			}
 			out.Emit(o)
 			os.RemoveAll(od)
+		}
+	}
+}
+
+// c16readAll reads r from offset 0 to its end with bounded effort: a reader that keeps returning (0, nil) or yields more
+// than `limit` bytes does not end (and is reported), instead of hanging the replayer the way io.ReadAll would
+func c16readAll(r io.ReaderAt, limit int64) (out []byte, stuck string) {
+	buf := make([]byte, 64<<10)
+	var off int64
+	idle := 0
+	for {
+		n, err := r.ReadAt(buf, off)
+		out = append(out, buf[:n]...)
+		off += int64(n)
+		if err != nil {
+			return out, ""
+		}
+		if n == 0 {
+			idle++
+			if idle > 1000 {
+				return out, fmt.Sprintf("ReadAt at offset %d keeps returning (0, nil)", off)
+			}
+		} else {
+			idle = 0
+		}
+		if off > limit {
+			return out, fmt.Sprintf("more than %d bytes read without reaching the end", limit)
 		}
 	}
 }
